@@ -144,9 +144,7 @@ func runGeneric(r *Report, prop string) {
 				if _, isDefer := in.(*ssa.Defer); isDefer {
 					return
 				}
-				if _, why := lockHeldAtReturn[Outermost(f).Name()]; why {
-					return
-				}
+				_, acquireHelper := lockHeldAtReturn[Outermost(f).Name()]
 				rel := "Unlock"
 				if op == "RLock" {
 					rel = "RUnlock"
@@ -179,7 +177,12 @@ func runGeneric(r *Report, prop string) {
 							}
 						}
 					}
-					if _, isRet := x.(*ssa.Return); isRet {
+					if ret, isRet := x.(*ssa.Return); isRet {
+						// an acquire helper hands the lock to its caller on success; its failure returns
+						// must have released it
+						if acquireHelper && RetErrKind(ret) == "nil" {
+							return Stop
+						}
 						return Hit
 					}
 					return Cont
